@@ -43,6 +43,14 @@ func suiteC11(rng *rand.Rand, tier string, w *Writer) {
 	for _, f := range extraC11 {
 		f(rng, tier, w)
 	}
+	// the pipeline behind the forwarder: one server fed well over a hundred frames, most of them malformed
+	nh := 5
+	if tier == "thorough" {
+		nh = 60
+	}
+	for i := 0; i < nh; i++ {
+		runHistory(rng, profiles["C11"], w, "histC11")
+	}
 }
 
 var extraC11 []suiteFunc
